@@ -318,7 +318,7 @@ func RunBatch(w *World, chk Check, cfg BatchConfig) int {
 	newFound := map[string]found{}
 	knownHits := map[string]int{}
 	var evaluations int64
-	deadline := start.Add(cfg.Budget)
+	deadline := time.Now().Add(cfg.Budget) // the exploration budget starts after the witnesses were replayed
 	var wg sync.WaitGroup
 	var harnessErr atomic.Value
 	for wk := 0; wk < cfg.Workers; wk++ {
